@@ -36,6 +36,10 @@ EmitRec ==
          [kind |-> "case", c |-> st, data |-> d,
           targets |-> IF st.layout = "grid" THEN <<>> ELSE tg,
           coincide |-> SetSeq(Coincide(tg, d)), free |-> SetSeq(Free(tg, d)), ntargets |-> Len(tg)]
+    [] st.k = "case" /\ st.sim = "simtub-mv" ->
+         [kind |-> "case", c |-> st, data |-> MvZ, incr |-> MvD, datasum |-> MvSum,
+          coincide |-> SetSeq(Coincide(GridTargets, MvZ)), dx_e6 |-> IF st.place = "near" THEN 200 ELSE 0,
+          cols_ok |-> TBColsOK(st.nvar, st.nbsimu)]
     [] st.k = "case" /\ st.sim \in {"simfft", "spde", "spdec", "simtub-nc"} ->
          [kind |-> "case", c |-> st, data |-> DataSet(st.dset)]
     [] st.k = "case" /\ st.sim = "gibbs" ->
